@@ -19,10 +19,13 @@ the count never exceeds the limit.
 * `C14_never_over_limit`, `C14_not_refused_below_limit`: the consequences the property names.
 * `C14_bulkLoad_exact`: BulkLoadHnsw's reserve / release arithmetic (duplicates inside the batch,
   rejected items, overwrites of existing ids);
-* NOT covered by a theorem: concurrent RPCs (the model is sequential; decided by the schedule
-  exploration of `./check C14` on the real handlers).
+* concurrent RPCs: the handlers' model here is sequential; `Theorems/C14Conc.lean` carries the step-level
+  protocol around one id (`C14_unlocked_delete_drifts`: the pre-fix schedule; `C14_locked_schedules_exact`:
+  with the quota lock held across each whole operation every schedule keeps count = live); the real
+  handlers' schedules are explored by `./check C14`.
 -/
 import KyroModel.Lemmas.TenantBulk
+import KyroModel.Theorems.C14Conc
 
 namespace KyroModel.C14
 open KyroModel KyroModel.Srv
